@@ -76,7 +76,7 @@ def write_cfg(name, text):
 LAWS = ("LawFractionInRange LawAddThenSub LawSubThenAdd LawNoWrap LawAddExact LawDispatch LawWholeTicks LawOrder "
         "LawFromTicks LawCodeAgrees LawEasingEndpoints LawEasingMonotone LawEasingExactlyScalable LawMappingClamps "
         "LawSpeedConsistent")
-WITNESSES = ["W_Carry", "W_Borrow", "W_Saturates", "W_Dispatch", "W_ClampLow", "W_ClampHigh", "W_InOutUp", "W_SpeedDown"]
+WITNESSES = ["W_Carry", "W_Borrow", "W_Saturates", "W_Dispatch", "W_ClampLow", "W_ClampHigh", "W_InOutUp", "W_SpeedDown", "W_SpeedAcross"]
 
 
 def grid(tier):
